@@ -27,6 +27,9 @@ def main():
             continue
         d = os.path.join("/verif/seeded", name)
         meta = json.load(open(os.path.join(d, "meta.json")))
+        if meta.get("stale"):
+            print("%s skipped: marked stale (%s)" % (name, (meta.get("note") or "")[:80]), flush=True)
+            continue
         prop = meta["property"]
         checks = [c for c, v in meta.get("checks", {}).items() if v.get("rc") == 1] or [prop]
         wt = tempfile.mkdtemp(prefix="seedre-")
